@@ -164,6 +164,8 @@ def rename (t : Tree) (o n : Path) : Except Err Tree := do
   match t.get qo with
   | none => .error .enoent
   | some node =>
+    if isPrefix qo qn then .error .einval   -- a directory cannot be moved into itself
+    else
     match t.get qn.dropLast with
     | some .dir =>
       let clash : Except Err Unit := match node, t.get qn with
